@@ -141,7 +141,7 @@ def enter(entry, term, panel=False, rows=None):
     elif entry == 'biogeme_dict':
         b = make_biogeme(db, {'log_like': expr}, number_of_draws=4)
     elif entry == 'biogeme_dict_weight':
-        w = R.Builder(spec()).build(('traj', ('num', 1.0)) if panel else ('num', 1.0))
+        w = R.Builder(spec()).build(('num', 1.0))
         b = make_biogeme(db, {'log_like': expr, 'weight': w}, number_of_draws=4)
     elif entry == 'get_value_c':
         return [float(v) for v in np.atleast_1d(expr.get_value_c(database=db, number_of_draws=4, prepare_ids=True))]
@@ -386,13 +386,28 @@ def _structural(rec):
             choice_set=[1, 2, 3], tuple_of_nests=(OneNestForNestedLogit(mu(), [1, 4], 'a'),)), ex.Variable('choice'))),
         'overlapping-nests-legacy-tuples': lambda e: via(e, models.lognested(V(), av(), ((mu(), [1, 2]), (ex.Beta('mu2', 1.2, 1, 10, 0), [2, 3])),
                                                                            ex.Variable('choice'))),
-        'cnl-alternative-in-no-nest': lambda e: via(e, models.logcnl(V(), av(), NestsForCrossNestedLogit(
-            choice_set=[1, 2, 3], tuple_of_nests=(OneNestForCrossNestedLogit(mu(), {1: 1.0, 2: 0.5}, 'a'),
-                                                  OneNestForCrossNestedLogit(ex.Beta('mu2', 1.2, 1, 10, 0), {2: 0.5}, 'b'))), ex.Variable('choice'))),
         'cnl-nest-leaves-choice-set': lambda e: via(e, models.logcnl(V(), av(), NestsForCrossNestedLogit(
             choice_set=[1, 2, 3], tuple_of_nests=(OneNestForCrossNestedLogit(mu(), {1: 1.0, 2: 0.5, 3: 1.0, 7: 1.0}, 'a'),
                                                   OneNestForCrossNestedLogit(ex.Beta('mu2', 1.2, 1, 10, 0), {2: 0.5}, 'b'))), ex.Variable('choice'))),
     }
+    # valid counterparts are accepted
+    valid = {
+        'logit': lambda e: via(e, models.loglogit(V(), av(), ex.Variable('choice'))),
+        'nested': lambda e: via(e, models.lognested(V(), av(), NestsForNestedLogit(
+            choice_set=[1, 2, 3], tuple_of_nests=(OneNestForNestedLogit(mu(), [1, 2], 'a'),)), ex.Variable('choice'))),
+        'cnl': lambda e: via(e, models.logcnl(V(), av(), NestsForCrossNestedLogit(
+            choice_set=[1, 2, 3], tuple_of_nests=(OneNestForCrossNestedLogit(mu(), {1: 1.0, 2: 0.5}, 'a'),
+                                                  OneNestForCrossNestedLogit(ex.Beta('mu2', 1.2, 1, 10, 0), {2: 0.5, 3: 1.0}, 'b'))), ex.Variable('choice'))),
+    }
+    for name, fn in valid.items():
+        for entry in ('biogeme', 'expression'):
+            try:
+                fn(entry)
+                rec.case(None, ('structural-valid', name, entry), outcome='accepted')
+            except Exception as e:
+                rec.violation(f'C12|valid-specification-rejected-{type(e).__name__}|structural:{name}:{entry}',
+                              f'valid {name} model rejected: {str(e)[:200]}', dict(part='structural'))
+                rec.retire = True
     for name, fn in cases.items():
         for entry in ('biogeme', 'expression'):
             _expect_refusal(rec, f'{name}', entry, lambda fn=fn, entry=entry: fn(entry))
@@ -417,24 +432,6 @@ def _structural(rec):
             b = make_biogeme(d, ex.Beta('b1', 0.5, None, None, 0) * ex.Variable('x2'))
             return b.calculate_likelihood(np.array([0.5]), scaled=False)
         _expect_refusal(rec, name, 'Database+BIOGEME', mk)
-    # valid counterparts are accepted
-    valid = {
-        'logit': lambda e: via(e, models.loglogit(V(), av(), ex.Variable('choice'))),
-        'nested': lambda e: via(e, models.lognested(V(), av(), NestsForNestedLogit(
-            choice_set=[1, 2, 3], tuple_of_nests=(OneNestForNestedLogit(mu(), [1, 2], 'a'),)), ex.Variable('choice'))),
-        'cnl': lambda e: via(e, models.logcnl(V(), av(), NestsForCrossNestedLogit(
-            choice_set=[1, 2, 3], tuple_of_nests=(OneNestForCrossNestedLogit(mu(), {1: 1.0, 2: 0.5}, 'a'),
-                                                  OneNestForCrossNestedLogit(ex.Beta('mu2', 1.2, 1, 10, 0), {2: 0.5, 3: 1.0}, 'b'))), ex.Variable('choice'))),
-    }
-    for name, fn in valid.items():
-        for entry in ('biogeme', 'expression'):
-            try:
-                fn(entry)
-                rec.case(None, ('structural-valid', name, entry), outcome='accepted')
-            except Exception as e:
-                rec.violation(f'C12|valid-specification-rejected-{type(e).__name__}|structural:{name}:{entry}',
-                              f'valid {name} model rejected: {str(e)[:200]}', dict(part='structural'))
-                rec.retire = True
     rec.sample(dict(part='structural', faults=list(cases)))
 
 
@@ -535,12 +532,12 @@ def _missing(task, rec):
             got = [float(v) for v in expr.get_value_c(database=db, prepare_ids=True)]
         elif entry == 'biogeme':
             b = make_biogeme(db, expr, missing_data=code)
-            got = [float(b.calculate_likelihood(np.array([0.5]), scaled=False))]
+            got = [float(b.calculate_likelihood(np.array(b.id_manager.free_betas_values, dtype=float), scaled=False))]
             if kind == 'values':
                 want = [sum(want)]
         else:
             b = make_biogeme(db, {'f': expr}, missing_data=code)
-            got = [float(v) for v in b.simulate({'b': 0.5})['f']]
+            got = [float(v) for v in b.simulate({nm: 0.5 for nm in b.free_beta_names})['f']]
     except Exception as e:
         rec.case(key, (task['formula'], task['row'], task['col'], task['code'], entry, 'raised'), outcome=('raised', kind))
         if kind == 'values':
